@@ -28,6 +28,14 @@ structure OpRes where
   info : Option InfoOut := none
   deriving Repr, Inhabited
 
+/-- result of a registration: these operations never run user code, so they carry no events -/
+structure RegRes where
+  v    : Verdict
+  info : Option InfoOut := none
+  deriving Repr, Inhabited
+
+def RegRes.toOpRes (r : RegRes) : OpRes := { v := r.v, ev := [], info := r.info }
+
 /-! ### DotParam / DotResult flattening used by the Info structs -/
 
 mutual
@@ -130,7 +138,7 @@ def verifyScopes (cfg : Cfg) : List Nat → St → Except (Nat × CycleRes) Unit
 
 def fnOf (fns : List Fn) (id : Nat) : Option Fn := fns.find? (·.id == id)
 
-def apiProvide (ctx : Ctx) (fn : Fn) (st : St) (i : Nat) (s : Nat) (o : ProvideOpts) : St × OpRes :=
+def apiProvide (ctx : Ctx) (fn : Fn) (st : St) (i : Nat) (s : Nat) (o : ProvideOpts) : St × RegRes :=
   match fn.nonfunc with
   | some _ => (st, { v := .err .invalid0 })
   | none =>
@@ -139,7 +147,7 @@ def apiProvide (ctx : Ctx) (fn : Fn) (st : St) (i : Nat) (s : Nat) (o : ProvideO
   | .ok as =>
     let target := if o.export_ then St.root else s
     let scopes := st.subscopes target
-    let reject (w : St) (e : DErr) : St × OpRes :=
+    let reject (w : St) (e : DErr) : St × RegRes :=
       (rollbackProvide st w target scopes, { v := .err (.provide e) })
     -- newConstructorNode
     match parseParams ctx.env st target fn with
@@ -197,7 +205,7 @@ def hasDup : List Key → Bool
   | [] => false
   | k :: ks => ks.contains k || hasDup ks
 
-def apiDecorate (ctx : Ctx) (fn : Fn) (st : St) (i : Nat) (s : Nat) (cb info : Bool) : St × OpRes :=
+def apiDecorate (ctx : Ctx) (fn : Fn) (st : St) (i : Nat) (s : Nat) (cb info : Bool) : St × RegRes :=
   match fn.nonfunc with
   | some _ => (st, { v := .err .invalid0 })
   | none =>
@@ -255,9 +263,8 @@ def apiInvoke (ctx : Ctx) (fn : Fn) (st : St) (s : Nat) (info : Bool) : St × Op
           | (.ok args, w) =>
             let inf : Option InfoOut :=
               if info then some { id := 0, ins := dotParams params, outs := [] } else none
-            match callBody ctx fn args w with
-            | (.error f, w) => (w, { v := failToVerdict f, ev := w.log })
-            | (.ok r, w) =>
+            match callBody ctx .invoked fn args w with
+            | (r, w) =>
               let v : Verdict := match r with
                 | .dry => .ok
                 | .ok _ _ => .ok
@@ -290,11 +297,19 @@ def step (ctx : Ctx) (fns : List Fn) (st : St) (i : Nat) (op : Op) : St × OpRes
     if parent < st.scopes.length then (apiScope st parent, { v := .ok }) else (st, { v := .badop })
   | .provide s f o =>
     match fnOf fns f with
-    | some fn => if s < st.scopes.length then apiProvide ctx fn st i s o else (st, { v := .badop })
+    | some fn =>
+      if s < st.scopes.length then
+        match apiProvide ctx fn st i s o with
+        | (st', r) => (st', r.toOpRes)
+      else (st, { v := .badop })
     | none => (st, { v := .badop })
   | .decorate s f cb info =>
     match fnOf fns f with
-    | some fn => if s < st.scopes.length then apiDecorate ctx fn st i s cb info else (st, { v := .badop })
+    | some fn =>
+      if s < st.scopes.length then
+        match apiDecorate ctx fn st i s cb info with
+        | (st', r) => (st', r.toOpRes)
+      else (st, { v := .badop })
     | none => (st, { v := .badop })
   | .invoke s f info =>
     match fnOf fns f with
